@@ -8,6 +8,8 @@ A case is a JSON-able dict:
                       center_dispersion_coefficients[], width_dispersion_coefficients[],
                       model_dispersion_with_wavenumber}
   global_axis, model_axis : lists of floats
+  global_axis_dtype       : optional numpy dtype name of the *array* the spectral axis is handed over in ("int64", "int32";
+                            default "float64"); the values of global_axis are then whole numbers (same values for the model)
   inverted, scale         : spectral axis options (pfid, spectral)
   order, width, label     : coherent artifact
   shapes    : [[compartment, "gaussian"|"skewed"|"one"|"zero", amplitude|None, location, width, skewness], ...]
@@ -156,11 +158,23 @@ ERR_CLASS = {
 }
 
 
+def global_axis_array(case):
+    """the spectral (global) axis as the array the library receives: float64, or - `global_axis_dtype` - an integer
+    array holding the same (whole) numbers, as `np.arange(400, 700, 10)`, pixel numbers or integer wavelengths of a file"""
+    dt = np.dtype(case.get("global_axis_dtype") or "float64")
+    vals = [float(x) for x in case["global_axis"]]
+    if dt.kind in "iu":
+        if any(v != int(v) for v in vals):
+            raise core.HarnessError(f"integer spectral axis asked for non-integer values {vals}")
+        return np.asarray([int(v) for v in vals], dtype=dt)
+    return np.asarray(vals, dtype=dt)
+
+
 def run_real(case):
     """-> ("ok", labels, matrix[(index,) time, column]) or ("err", exception class name, message)"""
     try:
         dm, mc, _ = build(case)
-        g = np.asarray(case["global_axis"], dtype=np.float64)
+        g = global_axis_array(case)
         m = np.asarray(case["model_axis"], dtype=np.float64)
         if case["kind"] == "spectralds":
             # dataset-level matrix: every megacomplex of the dataset, combined by clp label (the public static method the
@@ -184,7 +198,7 @@ def run_real(case):
 def run_real_decay(case, rate):
     """matrix of a one-compartment decay (rate `rate`) in the same dataset: (index?, time) array"""
     dm, _, dec = build(case, decay_rate=rate)
-    g = np.asarray(case["global_axis"], dtype=np.float64)
+    g = global_axis_array(case)
     m = np.asarray(case["model_axis"], dtype=np.float64)
     with np.errstate(all="ignore"):
         labels, matrix = dec.calculate_matrix(dm, g, m)
@@ -533,7 +547,7 @@ def run_result(cases, clp_seed=1):
     P.items[-1][2]["vary"] = True       # least_squares needs one free parameter
     model = Model.create_class_from_megacomplexes(list(dict.fromkeys(classes)))(**md)
     params = Parameters.from_list(P.items)
-    g = np.asarray(first["global_axis"], dtype=np.float64)
+    g = global_axis_array(first)
     m = np.asarray(first["model_axis"], dtype=np.float64)
     spectral = "spectral" in kinds
     gdim, mdim = ("time", "spectral") if spectral else ("spectral", "time")
